@@ -587,11 +587,25 @@ func c09Run(c *ev.Ctx) {
 				dims[0] = uint64(r.Range(2, 3))
 			}
 		}
+		// a chunk grid with more than sixteen chunks along two or three axes at once
+		grid := !wide && r.Chance(1, 10)
+		if grid {
+			rank = r.Range(2, 3)
+			dims = make([]uint64, rank)
+			for i := range dims {
+				dims[i] = uint64(r.Range(17, []int{0, 0, 60, 22}[rank]))
+			}
+		}
 		kind := []string{"i32", "i64", "u32", "u64", "f32", "f64"}[r.Intn(6)]
 		op := hx.Op{K: "create_ds", Path: "/d", DT: kind, Dims: dims}
 		layoutTag := "contig"
-		if r.Chance(2, 3) {
+		if grid || r.Chance(2, 3) {
 			op.Chunk = hx.GenChunk(r, dims, r.Intn(5))
+			if grid {
+				for i := range op.Chunk {
+					op.Chunk[i] = uint64(r.Range(1, []int{0, 0, 3, 1}[rank]))
+				}
+			}
 			if wide { // at most a few hundred chunks: the subject is the selection, not the index size
 				op.Chunk[rank-1] = uint64(r.Range(int(dims[rank-1])/200+1, int(dims[rank-1])))
 			}
@@ -685,7 +699,7 @@ func c09Run(c *ev.Ctx) {
 var C09 = &ev.Property{
 	ID:    "C09",
 	Level: "exploration",
-	Rule: "datasets: (1) library-written, rank 1-4, extents 1-12 per axis (one in twelve with a last axis of 20 000-50 000 elements; on those, selections with blocks of 1-3 separated by gaps of 8189..8200 and 16383..16390 elements are enumerated), contiguous / chunked (whole, non-dividing, many chunks, chunk of one, random) / filtered, six numeric kinds, superblock 0/2/3; (2) every dataset of the reference corpus whose full Read succeeds (incl. compact, big-endian, filtered). Per dataset: full extent, first element, last element, half along each axis, a selection straddling a chunk boundary in every axis, and seeded random selections with stride>1 and block>1 (30 quick / 120 thorough for library datasets, 12 / 40 for corpus datasets) are read with ReadHyperslab (and ReadSlice where applicable) and compared element-wise with the coordinates picked from the full Read in row-major selection order; seven kinds of invalid selections (start>=dim, start+count>dim, overflow near 2^64, zero count, stride past the end, rank mismatch, stride overflow) must be rejected; the chunk iterator must visit each stored chunk once and its pieces must tile the full read. " +
+	Rule: "datasets: (1) library-written, rank 1-4, extents 1-12 per axis (one in ten of rank 2-3 with 17-60 / 17-22 elements per axis in chunks of 1-3 / 1, i.e. grids of more than sixteen chunks along every axis; one in twelve with a last axis of 20 000-50 000 elements; on those, selections with blocks of 1-3 separated by gaps of 8189..8200 and 16383..16390 elements are enumerated), contiguous / chunked (whole, non-dividing, many chunks, chunk of one, random) / filtered, six numeric kinds, superblock 0/2/3; (2) every dataset of the reference corpus whose full Read succeeds (incl. compact, big-endian, filtered). Per dataset: full extent, first element, last element, half along each axis, a selection straddling a chunk boundary in every axis, and seeded random selections with stride>1 and block>1 (30 quick / 120 thorough for library datasets, 12 / 40 for corpus datasets) are read with ReadHyperslab (and ReadSlice where applicable) and compared element-wise with the coordinates picked from the full Read in row-major selection order; seven kinds of invalid selections (start>=dim, start+count>dim, overflow near 2^64, zero count, stride past the end, rank mismatch, stride overflow) must be rejected; the chunk iterator must visit each stored chunk once and its pieces must tile the full read. " +
 		"distinct = dataset descriptor (layout, dims, chunk, type) or corpus dataset path; every dataset with a successful full read is non-trivial.",
 	Assumptions: []string{
 		"the dataset's own full Read is the reference (its correctness is decided by C01/C06)",
